@@ -2231,8 +2231,9 @@ class Component_Decl(Base):  # R442
             char_length = Char_Length(char_length)
         if newline.startswith("="):
             init = Component_Initialization(newline)
-        else:
-            assert newline == "", repr(newline)
+        elif newline:
+            # Unexpected trailing text so this is not a component-decl.
+            return
         return name, array_spec, char_length, init
 
     def tostr(self):
@@ -3062,7 +3063,9 @@ class Ac_Implied_Do(Base):
             # No "=" or it is "==" so no match.
             return None
         j = line[:i].rfind(",")
-        assert j != -1
+        if j == -1:
+            # No value list before the implied-do control so no match.
+            return None
         s1 = repmap(line[:j].rstrip())
         s2 = repmap(line[j + 1 :].lstrip())
         return Ac_Value_List(s1), Ac_Implied_Do_Control(s2)
@@ -5677,7 +5680,9 @@ class Deallocate_Stmt(StmtBase):  # R635
         opts = None
         if i != -1:
             j = line[:i].rfind(",")
-            assert j != -1, repr((i, j, line))
+            if j == -1:
+                # No allocate-object-list before the options so no match.
+                return
             opts = Dealloc_Opt_List(repmap(line[j + 1 :].lstrip()))
             line = line[:j].rstrip()
         return Allocate_Object_List(repmap(line)), opts
